@@ -191,6 +191,7 @@ func init() {
 							c.Violation("families", "decoder-panic-"+enc, pan, nil, kase, nil)
 						case hung:
 							c.Violation("families", "decoder-hang-"+enc, "", nil, kase, nil)
+							c.AbortAfterHang()
 						case err != nil || !bytes.Equal(out, in):
 							sig := "valid-stream-not-restored-" + enc
 							if enc == "lz4" && n > 10*len(stream) {
@@ -268,7 +269,7 @@ func init() {
 		}
 		if c.Want("malformed") {
 			st := c.Stat("malformed", "enumeration")
-			st.Bounds = "every truncation and every single-bit flip of 5 small streams per format"
+			st.Bounds = "every truncation and every single-bit flip of 5 small streams per format, plus trailing garbage; each followed by a decode of the unmodified stream"
 			inputs := [][]byte{{}, []byte("a"), []byte("hello hello hello hello"), bytes.Repeat([]byte("ab"), 40), lcg(48, 3)}
 			var idx int64
 			for _, enc := range []string{"gzip", "br", "lz4", "zst", "snz"} {
@@ -277,6 +278,8 @@ func init() {
 					if stream == nil {
 						continue
 					}
+					base, berr, _, _ := guarded(func() ([]byte, error) { return srv.Decompress(enc, stream) })
+					baseOK := berr == nil && bytes.Equal(base, in) // (lz4's block of nothing is no valid stream for any decoder)
 					try := func(mut []byte, what string) {
 						idx++
 						if !c.Mine(idx) {
@@ -289,10 +292,18 @@ func init() {
 						}
 						if hung {
 							c.Violation("malformed", "decoder-hang-"+enc, what, nil, map[string]interface{}{"enc": enc, "stream": fmt.Sprintf("%x", mut)}, nil)
+							c.AbortAfterHang()
+						}
+						// a malformed stream must not poison what comes next: the valid stream still decodes
+						if back, err, pan2, _ := guarded(func() ([]byte, error) { return srv.Decompress(enc, stream) }); baseOK && (pan2 != "" || err != nil || !bytes.Equal(back, in)) {
+							c.Violation("malformed", "valid-stream-not-restored-after-malformed-"+enc, fmt.Sprintf("after %s of stream %d the unmodified stream decodes to %q, %v %s", what, ii, trunc(back), err, pan2), nil, map[string]interface{}{"enc": enc, "stream": fmt.Sprintf("%x", mut), "then": fmt.Sprintf("%x", stream)}, nil)
 						}
 					}
 					for k := 0; k < len(stream); k++ {
 						try(stream[:k], fmt.Sprintf("truncation at %d", k))
+					}
+					for _, tail := range [][]byte{{0}, {0xff}, []byte("trailing garbage"), stream} {
+						try(append(append([]byte(nil), stream...), tail...), fmt.Sprintf("%d trailing bytes", len(tail)))
 					}
 					for k := 0; k < len(stream)*8; k++ {
 						m := append([]byte(nil), stream...)
